@@ -753,6 +753,7 @@ def snapshot(t):
         "root_idx": root_idx, "nodes": nodes, "problems": problems,
         "nodeIdx": dict(t._node_indices), "nodeIdxRev": dict(t._node_indices_rev),
         "data": data, "last": t._last_node_added_to, "grid": tuple(t.grid_size),
+        "edges": [tuple(e) for e in g.edge_list()],
     }
 
 
@@ -985,6 +986,8 @@ def compare_dump(ds, md, snap, tol, dens=None, sync=True, lastsync=True):
             diffs.append(f"_node_indices_rev values: model {sorted(mnir.values())} code {rnir}")
         if mkeys != rkeys:
             diffs.append(f"_data keys: model {mkeys} code {rkeys}")
+    if len(md.get("dictEdges", snap["edges"])) != len(snap["edges"]):
+        diffs.append(f"dict form: model has {len(md['dictEdges'])} edges, to_dict()['graph'] {len(snap['edges'])}")
     if mdata.get(-1, []) != snap["data"].get(-1, []):
         diffs.append(f"outliers: model {mdata.get(-1, [])} code {snap['data'].get(-1, [])}")
     if info["ident"] and sync:
